@@ -25,7 +25,7 @@ ASSUMPTIONS = [
 ]
 TRUSTED = oracle.TRUSTED
 
-SCALAR_OK = {"str", "iso", "enum-value", "pattern", "cast"}
+SCALAR_OK = {"str", "iso", "enum-value", "pattern", "cast", "null"}
 CONTAINER_OK = {"list-conv", "dict-conv", "list-copy", "dict-copy"}
 
 
@@ -34,6 +34,7 @@ def run(prog: Program, rep: Report, tier: str):
     rep.rule("R06.2", "Literal marshaller rejects non-members with ValueError", floor=3)
     rep.rule("R06.3", "no aliasing of the input by container rows; no mutation of the input", floor=14)
     rep.rule("R06.4", "no ambient reads on marshal paths", floor=14)
+    rep.rule("R06.6", "the None member is not a catch-all: non-None values are rejected, not emitted raw (shared with R08.7)", floor=2)
     rep.rule("R06.5", "container marshallers convert keys/members with the context's routine for their type argument (shared with R05.2/R05.3)", floor=8)
     rows = C.handlers(prog, "marshal")
     role = {}
@@ -87,3 +88,9 @@ def run(prog: Program, rep: Report, tier: str):
         sub.rule(r, "", 0)
     c05.r05_2_3(prog, sub, "marshal")
     absorb(rep, sub, {"R05.2": "R06.5", "R05.3": "R06.5"})
+    from . import c08
+
+    sub = _R("C06", rep.tier)
+    sub.rule("R06.6", "", 0)
+    c08.r08_7(prog, sub, rule="R06.6")
+    absorb(rep, sub, {"R06.6": "R06.6"})
